@@ -2177,7 +2177,19 @@ int cif_value_init_numb(cif_value_tp *n, double val, double su, int scale, int m
         FAILURE_HANDLING;
         struct numb_value_s *numb = &(n->as_numb);
         int most_significant_place = MSP(val);
-        char *locale = setlocale(LC_NUMERIC, "C");
+        char *locale = setlocale(LC_NUMERIC, NULL);
+
+        /*
+         * Save a copy of the name of the current numeric locale (the string returned by setlocale() may be overwritten
+         * by later calls), then switch to the C locale for formatting.
+         */
+        if (locale != NULL) {
+            locale = strdup(locale);
+        }
+        if ((locale != NULL) && (setlocale(LC_NUMERIC, "C") == NULL)) {
+            free(locale);
+            locale = NULL;
+        }
 
         if (locale != NULL) {
             char *digit_buf = to_digits(val, scale);
@@ -2233,6 +2245,7 @@ int cif_value_init_numb(cif_value_tp *n, double val, double su, int scale, int m
 
                     /* restore the original locale */
                     setlocale(LC_NUMERIC, locale);
+                    free(locale);
 
                     return CIF_OK;
                 }
@@ -2245,6 +2258,7 @@ int cif_value_init_numb(cif_value_tp *n, double val, double su, int scale, int m
 
             /* restore the original locale */
             setlocale(LC_NUMERIC, locale);
+            free(locale);
         }
 
         FAILURE_TERMINUS;
@@ -2282,7 +2296,16 @@ int cif_value_autoinit_numb(cif_value_tp *numb, double val, double su, unsigned 
             int result_code = CIF_INTERNAL_ERROR;
 
             /* number formatting and parsing must be done in the C locale to ensure portability */
-            char *locale = setlocale(LC_NUMERIC, "C");
+            char *locale = setlocale(LC_NUMERIC, NULL);
+
+            /* save a copy of the current locale's name before switching; setlocale() may overwrite the string it returns */
+            if (locale != NULL) {
+                locale = strdup(locale);
+            }
+            if ((locale != NULL) && (setlocale(LC_NUMERIC, "C") == NULL)) {
+                free(locale);
+                locale = NULL;
+            }
 
             if (locale != NULL) {
                 char buf[BUF_SIZE];
@@ -2337,6 +2360,7 @@ int cif_value_autoinit_numb(cif_value_tp *numb, double val, double su, unsigned 
                 } /* else the formatted su overflowed, despite our checks.  The su_rule must be very large. */
 
                 (void) setlocale(LC_NUMERIC, locale);
+                free(locale);
             }
 
             return result_code;
